@@ -162,6 +162,7 @@ func (c *consumer) ConsumePartition(topic string, partition int32, offset int64)
 	go withRecover(child.responseFeeder)
 
 	child.broker = c.refBrokerConsumer(leader)
+	verifPoint("pc.start", child.topic, child.partition, child.offset)
 	child.broker.input <- child
 
 	return child, nil
@@ -352,6 +353,7 @@ func (child *partitionConsumer) dispatcher() {
 
 			Logger.Printf("consumer/%s/%d finding new broker\n", child.topic, child.partition)
 			if err := child.dispatch(); err != nil {
+				verifPoint("pc.dispatch.failed", child.topic, child.partition)
 				child.sendError(err)
 				child.trigger <- none{}
 			}
@@ -389,6 +391,7 @@ func (child *partitionConsumer) dispatch() error {
 
 	child.broker = child.consumer.refBrokerConsumer(broker)
 
+	verifPoint("pc.dispatched", child.topic, child.partition)
 	child.broker.input <- child
 
 	return nil
@@ -466,6 +469,7 @@ feederLoop:
 		if child.responseResult == nil {
 			atomic.StoreInt32(&child.retries, 0)
 		}
+		verifPoint("feeder.parsed", child.topic, child.partition, len(msgs), child.offset, child.fetchSize)
 
 		for i, msg := range msgs {
 			child.interceptors(msg)
@@ -494,6 +498,7 @@ feederLoop:
 							break remainingLoop
 						}
 					}
+					verifPoint("feeder.resubscribe", child.topic, child.partition)
 					child.broker.input <- child
 					continue feederLoop
 				} else {
@@ -505,6 +510,7 @@ feederLoop:
 			}
 		}
 
+		verifPoint("feeder.done", child.topic, child.partition)
 		child.broker.acks.Done()
 	}
 
@@ -814,6 +820,7 @@ func (bc *brokerConsumer) subscriptionConsumer() {
 			return
 		}
 
+		verifPoint("bc.fetched", bc.broker.Addr(), response)
 		bc.acks.Add(len(bc.subscriptions))
 		for child := range bc.subscriptions {
 			child.feeder <- response
@@ -825,6 +832,7 @@ func (bc *brokerConsumer) subscriptionConsumer() {
 
 func (bc *brokerConsumer) updateSubscriptions(newSubscriptions []*partitionConsumer) {
 	for _, child := range newSubscriptions {
+		verifPoint("bc.subscribe", bc.broker.Addr(), child.topic, child.partition)
 		bc.subscriptions[child] = none{}
 		Logger.Printf("consumer/broker/%d added subscription to %s/%d\n", bc.broker.ID(), child.topic, child.partition)
 	}
@@ -843,9 +851,11 @@ func (bc *brokerConsumer) updateSubscriptions(newSubscriptions []*partitionConsu
 
 // handleResponses handles the response codes left for us by our subscriptions, and abandons ones that have been closed
 func (bc *brokerConsumer) handleResponses() {
+	verifPoint("bc.handle", bc.broker.Addr())
 	for child := range bc.subscriptions {
 		result := child.responseResult
 		child.responseResult = nil
+		verifPoint("bc.verdict", bc.broker.Addr(), child.topic, child.partition, result)
 
 		if result == nil {
 			if preferredBroker, err := child.preferredBroker(); err == nil {
@@ -892,6 +902,7 @@ func (bc *brokerConsumer) handleResponses() {
 
 func (bc *brokerConsumer) abort(err error) {
 	bc.consumer.abandonBrokerConsumer(bc)
+	verifPoint("bc.abort", bc.broker.Addr())
 	_ = bc.broker.Close() // we don't care about the error this might return, we already have one
 
 	for child := range bc.subscriptions {
